@@ -15,7 +15,7 @@ entitled", answer independent of history), without the Lean model.
 import os
 
 THEOREMS = ["IstioModel.C11.Theorems", "IstioModel.C11.ParseTheorems", "IstioModel.C11.SdsTheorems", "IstioModel.C11.RefsTheorems",
-            "IstioModel.C11.AuthCacheTheorems", "IstioModel.C11.TimedTheorems"]
+            "IstioModel.C11.AuthCacheTheorems", "IstioModel.C11.TimedTheorems", "IstioModel.C11.DebugTheorems"]
 STREAMS = ("auth", "stream", "parse", "refs", "sds")
 
 
@@ -141,7 +141,12 @@ def run(ctx):
         "the secret store is immutable within a case (Secret / ConfigMap updates with cache.Clear(keys) are C06's subject); LRU eviction and the "
         "push-start token rule of lruCache.Add do not fire (synthetic increasing start times)",
         "service accounts / namespaces contain no ':' (serviceaccount.MakeUsername would alias users)",
-        "feature flags are pinned at harness start (pinFeatures) and set explicitly by the ops that exercise them; only the sds stream varies "
+        "never generated: a config cluster other than c1, service accounts outside {sa1, sa2} and a trust domain other than cluster.local in the sds "
+        "stream, concurrent Generate calls / streams, ReferenceGrant / RBAC / Secret / proxy-label changes while a stream is alive (only Gateway changes are)",
+        "feature flags are pinned at harness start (pinFeatures: UNSAFE_PILOT_ENABLE_RUNTIME_ASSERTIONS, PILOT_ENABLE_REMOTE_CREDENTIALS_CONTROLLER, "
+        "XDS_AUTH, XDS_AUTH_PLAINTEXT, PILOT_ENABLE_XDS_IDENTITY_CHECK, PILOT_SCOPE_GATEWAY_TO_NAMESPACE, ENABLE_DEBUG_ENDPOINT_AUTH, "
+        "ENABLE_XDS_API_GENERATOR_AUTH, DEBUG_ENDPOINT_AUTH_ALLOWED_NAMESPACES - the environment of the run cannot change the verdict) and set explicitly "
+        "by the ops that exercise them; only the sds stream varies "
         "PILOT_ENABLE_REMOTE_CREDENTIALS_CONTROLLER and the mesh default ProxyConfig; the stream world's SecretGen has a nil mesh config",
         "TLS termination / certificate validation that produce the credential identity list (security.Authenticators) are inputs",
     ]
@@ -173,8 +178,9 @@ def run(ctx):
         for l in ctx.read_lines(impl):
             t = l.split(" ")
             k = t[0]
-            if k in ("ok", ""):
-                k = "ok-" + t[1] if stream == "parse" and len(t) > 1 and len(t[1]) < 24 else k
+            if k == "ok" and stream == "parse":
+                # ok <type> <kind> ... for prn; ok <string> for tkgr / krn / trn
+                k = "ok-" + t[1] if len(t) > 3 and t[1] in ("kubernetes", "kubernetes-gateway", "configmap", "invalid") else "ok-string"
             if stream == "refs":
                 k = "refs-empty" if l == "refs=-" else "refs-nonempty" if l.startswith("refs=") else k
             if stream == "stream" and k == "accepted":
@@ -210,7 +216,7 @@ def run(ctx):
                 for l in ctx.read_lines(out + ".stats"):
                     k, _, v = l.partition(" ")
                     if v.isdigit():
-                        ctx.count("outcome.%s.%s" % (stream, k), int(v))
+                        ctx.count("outcome.%s.%s" % (stream, k), int(v))  # e.g. outcome.stream.debug.<query>.<asker relation>.<outcome>.<data>
             for i, v in enumerate(verdicts):
                 if v.startswith("FAIL"):
                     clause = v.split()[1]
@@ -262,7 +268,9 @@ MANIFEST = {
                    "AllowedListeners assumption); parse_namespace_binding, key_injective / fullKey_injective. The model is tied to /repo on every "
                    "run by a line-by-line differential against the real functions, including real ADS and delta streams kept alive over a second "
                    "request, a Gateway created or deleted mid-stream and a full push, and the debug / status / API generators asked by a second "
-                   "real stream (oracle: no private key in any such response)."),
+                   "real stream (oracle: no private key in any such response, no data for unauthenticated, other-namespace, near-miss-namespace or "
+                   "namespace-less askers; model debugAnswer with theorems debug_answer_sound / debug_needs_verified_namespace); provider_release_sound "
+                   "lifts the timed release property to private-key-provider cache partitions."),
     "level_note": ("Trusted: Lean kernel + {propext, Classical.choice, Quot.sound}; the hand-written model (tied by differential testing: streams auth, "
                    "stream, parse, refs, sds on the real code, ~10900 cases quick); the verif-tagged accessor files pilot/pkg/xds/zz_verif_c11.go, "
                    "pilot/pkg/model/zz_verif_c11.go and pilot/pkg/credentials/kube/zz_verif_c11.go (clock of the authorization cache); client-go "
@@ -275,8 +283,10 @@ MANIFEST = {
                    "domain of the credential is never compared (trust_domain_not_compared); (5) the debug generator (config_dump, syncz), the "
                    "status generator and the API generator are covered by an oracle clause on real streams (no private key in any response, no "
                    "data to unauthenticated or other-namespace askers) and a light model of their gating, not by theorems about their content; "
-                   "ECDS wasm pull secrets (GetDockerCredential), ndsz / edsz, WorkloadEntry auto-registration (autoregistration/controller.go:277) "
-                   "and the debug piggyback in processRequest are NOT covered; (6) RBAC verdicts are cached per user: a revoked authorisation may "
+                   "an identity without namespace is refused since e4c10d7; ECDS wasm pull secrets (GetDockerCredential), SecretsFieldSelector / "
+                   "ObjectFilter, handleWorkloadHealthcheck, OnConnect / WorkloadEntry auto-registration (autoregistration/controller.go:277), Gateway "
+                   "attachment through InternalGatewayServiceAnnotation (how Gateway-API gateways attach), EnableStrictGatewayMerging, the CRL / OCSP "
+                   "fields of the SDS response and the debug piggyback in processRequest have NO stream and NO oracle clause; (6) RBAC verdicts are cached per user: a revoked authorisation may "
                    "be honoured for < 300 s, a new one refused for < 60 s (modelled, proved and tied with a clock hook); (7) ListenerSet children "
                    "name secrets of their own namespace for the parent Gateway's proxies without a grant - sound only under the AllowedListeners "
                    "handshake of the conversion (predicate incl. matchExpressions tied; emission wiring and hand-written configs with internal "
@@ -284,7 +294,8 @@ MANIFEST = {
                    "ReferenceGrant evaluation and selector-based Gateway attachment are driven for real; private-key-provider configs (own and "
                    "mesh default) are modelled as cache partitions; which trust domains authenticate is an input. Not modelled: CRL/OCSP fields, "
                    "Secret store changes with cache.Clear(keys), LRU eviction, waypoint/ztunnel/agentgateway nodes, concurrent streams, "
-                   "EnableStrictGatewayMerging. Finding fixed in /repo by this check: 9d0eb93 (private key of provider configs in debug dumps)."),
+                   "EnableStrictGatewayMerging. Findings fixed in /repo by this check: 9d0eb93 (private key of provider configs in debug dumps), e4c10d7 (identity without namespace "
+                   "unrestricted on the xDS debug / status generators)."),
     "technique": "Lean 4 theorems over an exact model of identity binding, verified-reference computation and SDS release (with the RBAC result cache over time) + differential correspondence with the real Go functions and real xDS streams",
     "design_ref": "DESIGN.md section 5 C11",
 }
